@@ -8,7 +8,10 @@ code   renamify-core/src/lib.rs::configure_walker  — the `match level` arms: b
        content_inspector (version of Cargo.lock)   — BOM table, MAX_SCAN_SIZE, MAGIC_NUMBERS
 docs   docs/src/content/docs/features/filtering.mdx and README.md — which ignore file is honoured at which
        level, binary handling, hidden files, `.git`
-A shape the parser does not know raises (reported by the runner as a broken tie).
+A shape the parser does not know raises (reported by the runner as a broken tie) — with one exception: when the
+`match level` arms of configure_walker cannot be parsed (the function was restructured), the per-level table is extracted
+BEHAVIOURALLY: the real walker (vharness, built from the same tree) is run on fixed probe trees for levels 0..4 and 7 and
+the flags are read off what it yields. The generated file then says `walkerExtraction = "behavioural"`.
 """
 import glob
 import os
@@ -223,6 +226,100 @@ def cfg_for(walker, level):
 
 
 # ---------------------------------------------------------------------------------------------------------
+# behavioural extraction of the walker table (fallback for a restructured configure_walker)
+
+PROBE_KINDS = [("gi", ".gitignore"), ("ig", ".ignore"), ("rg", ".rgignore"), ("rn", ".rnignore")]
+
+
+def probe_tree(variant):
+    """scan root `r`; every ignore-file kind once in the root and once in its parent; `git`: r/.git with info/exclude;
+    `ancgit`: .git with info/exclude in the parent of the root"""
+    t = {"r": ("d", 0o755), "r/plain.txt": ("f", b"x\n", 0o644), "r/.hidden_file": ("f", b"x\n", 0o644),
+         "r/.renamify": ("d", 0o755), "r/.renamify/x.json": ("f", b"{}\n", 0o644),
+         "r/dir": ("d", 0o755), "r/dir/inner.txt": ("f", b"x\n", 0o644), "r/lnk": ("l", "dir"),
+         "r/ex.txt": ("f", b"x\n", 0o644), "r/exa.txt": ("f", b"x\n", 0o644)}
+    for tag, fname in PROBE_KINDS:
+        t[fname] = ("f", f"{tag}_above.txt\n".encode(), 0o644)
+        t["r/" + fname] = ("f", f"{tag}.txt\n".encode(), 0o644)
+        t[f"r/{tag}.txt"] = ("f", b"x\n", 0o644)
+        t[f"r/{tag}_above.txt"] = ("f", b"x\n", 0o644)
+    if variant == "git":
+        t.update({"r/.git": ("d", 0o755), "r/.git/config": ("f", b"x\n", 0o644), "r/.git/info": ("d", 0o755),
+                  "r/.git/info/exclude": ("f", b"ex.txt\n", 0o644)})
+    if variant == "ancgit":
+        t.update({".git": ("d", 0o755), ".git/info": ("d", 0o755), ".git/info/exclude": ("f", b"exa.txt\n", 0o644)})
+    return t
+
+
+def probe_configure_walker(reason):
+    from checks import gen
+    ok, msg = common.cargo_build()
+    if not ok:
+        fail(f"{reason}; behavioural extraction impossible, harness does not build: {msg[-300:]}")
+    variants = ["nogit", "git", "ancgit"]
+    settings = [(l, 1) for l in (0, 1, 2, 3, 4, 7)] + [(0, 0)]
+    reqs = []
+    for v in variants:
+        wt = gen.wire_tree(probe_tree(v))
+        for level, respect in settings:
+            reqs.append(" ".join(["scope", str(level), str(respect), "I", "0", "X", "0", "P", "1", common.hexs("r")] + wt
+                                 + ["O", "0", "M", common.hexs("zzz_none")]))
+    import tempfile
+    env = dict(common.BASE_ENV)
+    with tempfile.TemporaryDirectory(prefix="renamify-verif.") as home:
+        env["HOME"] = home
+        env["XDG_CONFIG_HOME"] = os.path.join(home, ".xdg-none")
+        out = common.run_impl(reqs, env=env)
+    seen = {}
+    it = iter(out)
+    for v in variants:
+        for st in settings:
+            line = next(it)
+            w = line.split(" | ")[0].split()[1:]
+            seen[(v, st)] = set(bytes.fromhex(x).decode() for x in w if x != "-")
+
+    def cfg_at(st):
+        ng, g, ag = seen[("nogit", st)], seen[("git", st)], seen[("ancgit", st)]
+        skipped = {tag: f"r/{tag}.txt" not in ng for tag, _ in PROBE_KINDS}
+        cfg = {"custom": [], "follow_links": "r/lnk/inner.txt" in ng, "require_git": True}
+        if skipped["gi"]:
+            cfg["custom"].append(".gitignore")
+        if skipped["rg"]:
+            cfg["custom"].append(".rgignore")
+        if skipped["rn"]:
+            cfg["custom"].append(".rnignore")
+        cfg["ignore"] = skipped["ig"]
+        cfg["git_exclude"] = "r/ex.txt" not in g
+        cfg["git_global"] = cfg["git_exclude"]                     # not observable on a probe tree
+        honoured = [tag for tag, _ in PROBE_KINDS if skipped[tag]]
+        above = [f"r/{tag}_above.txt" not in ng for tag in honoured]
+        if above and any(above) != all(above):
+            fail(f"{reason}; behavioural extraction: ancestor ignore files are honoured for some kinds only at setting {st}")
+        cfg["parents"] = bool(above) and all(above)
+        if cfg["git_exclude"] and cfg["parents"]:
+            cfg["git_ignore"] = "r/exa.txt" not in ag               # ancestor repositories count only with git_ignore
+        else:
+            cfg["git_ignore"] = "r/gi.txt" not in g
+        cfg["hidden"] = "r/.hidden_file" not in ng
+        cfg["filtered"] = [n for n, probe in ((".git", "r/.git"), (".renamify", "r/.renamify")) if probe not in g]
+        if "r/plain.txt" not in ng or "r/dir/inner.txt" not in ng:
+            fail(f"{reason}; behavioural extraction: the walker does not yield plain files at setting {st}")
+        return cfg
+    cfgs = {st: cfg_at(st) for st in settings}
+    if cfgs[(7, 1)] != cfgs[(4, 1)]:
+        fail(f"{reason}; behavioural extraction: levels 4 and 7 behave differently")
+    arms = [([l], cfgs[(l, 1)]) for l in (0, 1, 2, 3)] + [(None, cfgs[(4, 1)])]
+    if all(seen[(v, (0, 0))] == seen[(v, (0, 1))] for v in variants):
+        legacy = (None, None)
+    else:
+        tgt = [l for l in (1, 2, 3) if all(seen[(v, (0, 0))] == seen[(v, (l, 1))] for v in variants)]
+        if not tgt:
+            fail(f"{reason}; behavioural extraction: respect_gitignore=false at level 0 matches no level")
+        legacy = (0, tgt[0])
+    return {"arms": arms, "legacy_when": legacy[0], "legacy_level": legacy[1], "extraction": "behavioural", "reason": reason}
+
+
+# ---------------------------------------------------------------------------------------------------------
 # scanner.rs
 
 def parse_scanner(src):
@@ -269,7 +366,22 @@ def parse_scanner(src):
         if re.search(r"if\s*!\s*path\s*\.\s*is_file\s*\(\s*\)\s*\{\s*continue\s*;\s*\}", body):
             return True            # Path::is_file follows symlinks
         fail(f"{who}: the regular-file test in front of the content scan has an unknown shape")
-    res = {"binop": op, "binnum": num,
+    # which search path is stripped before the globs of the `replace` planner are matched
+    gvars = set(re.findall(r"globs\s*\.\s*is_match\s*\(\s*&?(\w+)\s*\)", simple))
+    if len(gvars) != 1:
+        fail(f"create_simple_plan: the glob sets are matched against {sorted(gvars)} (expected one variable)")
+    gvar = gvars.pop()
+    gdef = re.search(r"let\s+%s\s*=\s*([^;]*);" % re.escape(gvar), simple)
+    if not gdef:
+        fail(f"create_simple_plan: definition of `{gvar}` not found")
+    if re.search(r"find_map\s*\(\s*\|\s*(\w+)\s*\|\s*path\s*\.\s*strip_prefix\s*\(\s*&?\1\s*\)\s*\.\s*ok\s*\(\s*\)\s*\)", gdef.group(1)):
+        simple_first_only = False
+    elif re.search(r"^path\s*\.\s*strip_prefix\s*\(\s*&root\s*\)", gdef.group(1).strip()) and \
+            re.search(r"let\s+root\s*=\s*paths\s*\.\s*first\s*\(\s*\)", simple):
+        simple_first_only = True
+    else:
+        fail("create_simple_plan: how the path handed to the glob sets is made relative has an unknown shape")
+    res = {"binop": op, "binnum": num, "simple_first_only": simple_first_only,
            "multi_follows": file_test(multi, "scan_repository_multi"),
            "simple_follows": file_test(simple, "create_simple_plan")}
     for body, who in ((multi, "scan_repository_multi"), (simple, "create_simple_plan")):
@@ -497,7 +609,11 @@ def table(name, rows, comment):
 
 
 def generate(repo):
-    walker = parse_configure_walker(open(os.path.join(repo, "renamify-core/src/lib.rs")).read())
+    try:
+        walker = parse_configure_walker(open(os.path.join(repo, "renamify-core/src/lib.rs")).read())
+        walker["extraction"] = "source"
+    except ParseError as ex:
+        walker = probe_configure_walker(str(ex))
     other = "".join(open(os.path.join(repo, "renamify-core/src", f)).read() for f in ("scanner.rs", "rename.rs"))
     if re.search(r"follow_links\s*\(\s*true\s*\)|follow_symlinks\s*\(\s*true\s*\)", strip_rust_comments(other)):
         for _, cfg in walker["arms"]:
@@ -514,6 +630,10 @@ def generate(repo):
          "/- GENERATED by translate/walker.py from renamify-core/src/{lib,scanner,rename}.rs, content_inspector "
          + ci["version"] + ", docs/…/filtering.mdx and README.md — do not edit -/",
          "namespace Gen", "open Scope", ""]
+    if walker["extraction"] != "source":
+        o.append("/- configure_walker could not be parsed (" + walker["reason"].replace("-/", "- /") + ");")
+        o.append("   the table below was read off the behaviour of the real walker on probe trees (translate/walker.py) -/")
+    o.append(f'def walkerExtraction : String := "{walker["extraction"]}"')
     o.append("/-- the arms of `match level` in `configure_walker`, in source order -/")
     o.append("def walkerArms : List (List Nat × LevelCfg) := [")
     named = [(l, c) for l, c in walker["arms"] if l is not None]
@@ -535,6 +655,8 @@ def generate(repo):
     o.append("/-- the regular-file test of the two planners: does it follow symlinks (`Path::is_file`) -/")
     o.append(f"def scanFollowsSymlinks : Bool := {lb(sc['multi_follows'])}")
     o.append(f"def simplePlanFollowsSymlinks : Bool := {lb(sc['simple_follows'])}")
+    o.append("/-- `create_simple_plan` makes paths relative to its first search path only before matching include/exclude globs -/")
+    o.append(f"def simpleGlobsFirstRootOnly : Bool := {lb(sc['simple_first_only'])}")
     o.append("/-- `build_globset`: directory expansion present, and the characters whose absence makes a pattern 'look like a directory' -/")
     o.append(f"def globExpands : Bool := {lb(sc['glob_expand'])}")
     o.append(f"def globPlainChars : List UInt8 := [{', '.join(str(ord(c)) for c in sc['glob_chars'])}]")
@@ -551,7 +673,8 @@ def generate(repo):
     o.append("def exclCfg : ExclCfg := { comparesVariant := excludeComparesVariant, comparesText := excludeComparesText }")
     o.append("def pipeline : Pipeline :=")
     o.append("  { W := walker, G := globCfg, S := sniff, binaryAsText := binaryAsText,")
-    o.append("    scanFollows := scanFollowsSymlinks, simpleFollows := simplePlanFollowsSymlinks }")
+    o.append("    scanFollows := scanFollowsSymlinks, simpleFollows := simplePlanFollowsSymlinks,")
+    o.append("    simpleFirstRootOnly := simpleGlobsFirstRootOnly }")
     o.append("")
     o += table("docMdx", mdx_hon, "filtering.mdx: is the ignore file honoured at the level (none = the page is silent)")
     o += table("docReadme", rd_hon, "README.md 'Ignore Files'")
